@@ -174,39 +174,56 @@ def run_export(vec):
                         continue
                 if np.shape(got) != vals.shape or not np.array_equal(np.asarray(got, dtype=float), vals):
                     problems.append(t + f"stock {n!r}: values differ from the system's under their labels")
-        # ---- CSV files: one per flow and per exported stock quantity, readable back with from_df
-        for with_io, quantities in ((False, vec["csv_plain"]), (True, vec["csv_full"])):
-            d1 = os.path.join(tmp, f"csv_{with_io}")
-            try:
-                data_writer.export_mfa_flows_to_csv(mfa, d1)
-                data_writer.export_mfa_stocks_to_csv(mfa, d1, with_in_and_out=with_io)
-            except Exception as e:
-                problems.append(tag + f"csv export raised {type(e).__name__}: {str(e)[:160]}")
-                continue
-            files = sorted(os.listdir(d1))
-            if len(files) != len(quantities):
-                problems.append(tag + f"csv export (with_in_and_out={with_io}) wrote {len(files)} files for {len(quantities)} flows / stock "
-                                      f"quantities: {files}")
-            for kind, name, q in quantities:
-                fn = to_valid_file_name(name) + (".csv" if kind == "flow" else f"_{q}.csv")
-                path = os.path.join(d1, fn)
-                if kind == "flow":
-                    dims, _, _, vals = exp_flows[name]
-                else:
-                    s = next(s for s in S["stocks"] if s["name"] == name)
-                    dims = s["dims"]
-                    st = mfa.stocks[name]
-                    vals = {"stock": before["s:" + name][1], "inflow": before["s:" + name][2], "outflow": before["s:" + name][3]}[q]
-                if not os.path.exists(path):
-                    problems.append(tag + f"csv export: no file for {kind} {name!r} {q}")
-                    continue
-                try:
-                    back = FlodymArray.from_df(dims=DimensionSet(dim_list=[DIMOBJ[l] for l in dims]), df=pd.read_csv(path)).values
-                    if not np.array_equal(back, vals):
-                        problems.append(tag + f"csv export: file of {kind} {name!r} {q} does not hold its values under their labels")
-                except Exception as e:
-                    problems.append(tag + f"csv export: file of {kind} {name!r} {q} cannot be read back: {str(e)[:120]}")
-        if not snapshots_equal(before, system_snapshot(mfa)):
+        # ---- CSV files: one per flow and per exported stock quantity, readable back with from_df.
+        # Round 2: all values of the system are doubled in place and the export is repeated INTO THE SAME DIRECTORIES:
+        # the files then hold the current values (dict_doubled), nothing of the first export remains.
+        unchanged_after_round1 = True
+        for round_no in (1, 2):
+          if round_no == 2:
+            if "dict_doubled" not in vec:
+                break
+            unchanged_after_round1 = snapshots_equal(before, system_snapshot(mfa))
+            for f in mfa.flows.values():
+                f.values[...] = 2 * f.values
+            for st in mfa.stocks.values():
+                for a in (st.stock, st.inflow, st.outflow):
+                    a.values[...] = 2 * a.values
+            exp2 = vec["dict_doubled"]
+            exp_flows = {n: (dims, fr, to, expected_array(dims, vals)) for n, dims, fr, to, vals in exp2["flows"]}
+            tag = tag.replace("] {C19}", ", second export into the same directory after doubling all values] {C19}")
+          fac = float(round_no)
+          for with_io, quantities in ((False, vec["csv_plain"]), (True, vec["csv_full"])):
+              d1 = os.path.join(tmp, f"csv_{with_io}")
+              try:
+                  data_writer.export_mfa_flows_to_csv(mfa, d1)
+                  data_writer.export_mfa_stocks_to_csv(mfa, d1, with_in_and_out=with_io)
+              except Exception as e:
+                  problems.append(tag + f"csv export raised {type(e).__name__}: {str(e)[:160]}")
+                  continue
+              files = sorted(os.listdir(d1))
+              if len(files) != len(quantities):
+                  problems.append(tag + f"csv export (with_in_and_out={with_io}) wrote {len(files)} files for {len(quantities)} flows / stock "
+                                        f"quantities: {files}")
+              for kind, name, q in quantities:
+                  fn = to_valid_file_name(name) + (".csv" if kind == "flow" else f"_{q}.csv")
+                  path = os.path.join(d1, fn)
+                  if kind == "flow":
+                      dims, _, _, vals = exp_flows[name]
+                  else:
+                      s = next(s for s in S["stocks"] if s["name"] == name)
+                      dims = s["dims"]
+                      st = mfa.stocks[name]
+                      vals = fac * {"stock": before["s:" + name][1], "inflow": before["s:" + name][2], "outflow": before["s:" + name][3]}[q]
+                  if not os.path.exists(path):
+                      problems.append(tag + f"csv export: no file for {kind} {name!r} {q}")
+                      continue
+                  try:
+                      back = FlodymArray.from_df(dims=DimensionSet(dim_list=[DIMOBJ[l] for l in dims]), df=pd.read_csv(path)).values
+                      if not np.array_equal(back, vals):
+                          problems.append(tag + f"csv export: file of {kind} {name!r} {q} does not hold its values under their labels")
+                  except Exception as e:
+                      problems.append(tag + f"csv export: file of {kind} {name!r} {q} cannot be read back: {str(e)[:120]}")
+        if not unchanged_after_round1:
             problems.append(tag.replace("{C19}", "{C19,C15}") + "exporting altered the system")
         # ---- MFADefinition.to_dfs: one table per non-empty kind, one row per definition with its field values
         try:
@@ -254,16 +271,37 @@ def run_sankey(vec):
     problems = []
     if nodes != list(vec["nodes"]):
         problems.append(tag + f"nodes {nodes} != shown processes {vec['nodes']}")
-    want = []
-    for src, tgt, lab, v in vec["links"]:
-        label = lab[1] if lab[0] == "flow" else str(DIMOBJ[lab[1]].items[lab[2] - 1])
-        want.append((src, tgt, str(label), round(float(v), 9)))
-    want.sort()
+
+    def wanted(links):
+        want = []
+        for src, tgt, lab, v in links:
+            label = lab[1] if lab[0] == "flow" else str(DIMOBJ[lab[1]].items[lab[2] - 1])
+            want.append((src, tgt, str(label), round(float(v), 9)))
+        return sorted(want)
+
+    want = wanted(vec["links"])
     if got != want:
         diff = [x for x in got if x not in want][:2], [x for x in want if x not in got][:2]
         problems.append(tag + f"links differ: shown but wrong {diff[0]}, expected but missing {diff[1]}")
     if not snapshots_equal(before, system_snapshot(mfa)):
         problems.append(tag.replace("{C20}", "{C15}") + "plotting altered the system")
+    # ---- the system's values change in place (all doubled), the SAME plotter plots again
+    if "links_doubled" in vec and not problems:
+        try:
+            for f in mfa.flows.values():
+                f.values[...] = 2 * f.values
+            fig = plotter.plot()
+            sk = fig.data[0]
+            nodes = list(sk.node.label)
+            got = sorted((nodes[s], nodes[t], str(lab), round(float(v), 9)) for s, t, lab, v in
+                         zip(sk.link.source, sk.link.target, sk.link.label, sk.link.value))
+            want = wanted(vec["links_doubled"])
+            if got != want:
+                diff = [x for x in got if x not in want][:2], [x for x in want if x not in got][:2]
+                problems.append(tag + f"second plot() of the same plotter after the flows were doubled in place: shown but wrong {diff[0]}, "
+                                      f"expected but missing {diff[1]}")
+        except Exception as e:
+            problems.append(tag + f"second plot() raised {type(e).__name__}: {str(e)[:200]}")
     return problems
 
 
@@ -285,7 +323,8 @@ def run_lines(vec):
     arr = FlodymArray(dims=dims, values=vals, name="quantity")
     ref = (lambda l: DIMOBJ[l].name if vec["byname"] else l)
     intra, sub, col = vec["intra"], vec["subplot"], vec["linecolor"]
-    kw = dict(array=arr, intra_line_dim=ref(intra))
+    chart = vec.get("chart", "line")
+    kw = dict(array=arr, intra_line_dim=ref(intra), chart_type=chart)
     if sub:
         kw["subplot_dim"] = ref(sub)
     if col:
@@ -297,7 +336,7 @@ def run_lines(vec):
     elif vec["xarr"] == "intra_only":
         xvals = FlodymArray(dims=DimensionSet(dim_list=[DIMOBJ[intra]]), values=1000.0 + np.arange(len(DIMOBJ[intra].items)), name="xq")
         kw["x_array"] = xvals
-    tag = f"[dims {ds}, intra {intra}, subplot {sub or '-'}, linecolor {col or '-'}, by {'name' if vec['byname'] else 'letter'}, x {vec['xarr']}] {{C20}} "
+    tag = f"[dims {ds}, intra {intra}, subplot {sub or '-'}, linecolor {col or '-'}, by {'name' if vec['byname'] else 'letter'}, x {vec['xarr']}, chart {chart}] {{C20}} "
 
     def expected_x(s, c):
         if xvals is None:
@@ -317,6 +356,8 @@ def run_lines(vec):
         want[(s, c)] = ([float(y) for y in ys], expected_x(s, c))
     problems = []
     for backend in ("plotly", "pyplot"):
+        if backend == "pyplot" and chart == "area":
+            continue        # (fill_between polygons are not read back; area charts are checked on the plotly traces)
         try:
             plotter = (PlotlyArrayPlotter if backend == "plotly" else PyplotArrayPlotter)(**kw)
             fig = plotter.plot()
@@ -344,6 +385,17 @@ def run_lines(vec):
             else:
                 axes = fig.axes
                 for i, ax in enumerate(axes):
+                    if chart == "scatter":
+                        if not ax.collections:
+                            continue
+                        s = 0
+                        if sub:
+                            s = [f"{ref(sub)}={it}" for it in DIMOBJ[sub].items].index(ax.get_title()) + 1
+                        for pc in ax.collections:
+                            c = (list(map(str, DIMOBJ[col].items)).index(str(pc.get_label())) + 1) if col else 0
+                            off = np.asarray(pc.get_offsets())
+                            got[(s, c)] = ([float(v) for v in off[:, 1]], [float(v) for v in off[:, 0]])
+                        continue
                     if not ax.lines:
                         continue
                     s = 0
@@ -362,12 +414,67 @@ def run_lines(vec):
                 if gy != ys:
                     problems.append(tag + f"{backend}: line {k}: y {gy} != the array's entries {ys}")
                     break
+                if backend == "pyplot" and chart == "scatter" and any(isinstance(v, str) for v in xs):
+                    xs = list(range(len(xs)))      # matplotlib places categories at 0, 1, 2, ... in the order given
                 if [str(v) for v in gx] != [str(v) for v in xs] and [float(v) for v in gx] != [float(v) for v in xs]:
                     problems.append(tag + f"{backend}: line {k}: x {gx} != {xs}")
                     break
         except Exception as e:
             problems.append(tag + f"{backend}: raised {type(e).__name__}: {str(e)[:200]}")
     return problems[:4]
+
+
+def run_large_export(case):
+    """The read-back clause of C19 on a LARGE instance (a time grid of hundreds of years, a region list of > 127 items):
+    every pandas table of convert_to_dict and every CSV file, read back with from_df, is the system's array."""
+    from flodym.export import data_writer
+    from flodym.export.helper import to_valid_file_name
+    n_time, n_reg = case
+    t = Dimension(name="Time", letter="t", items=list(range(1850, 1850 + n_time)), dtype=int)
+    r = Dimension(name="Region", letter="r", items=[f"reg{i:03d}" for i in range(n_reg)], dtype=str)
+    dims = DimensionSet(dim_list=[t, r])
+    procs = flodym.make_processes(["sysenv", "use", "waste"])
+    fdefs = [flodym.FlowDefinition(from_process_name="sysenv", to_process_name="use", dim_letters=("t", "r")),
+             flodym.FlowDefinition(from_process_name="use", to_process_name="waste", dim_letters=("r", "t")),
+             flodym.FlowDefinition(from_process_name="waste", to_process_name="sysenv", dim_letters=("t",))]
+    flows = flodym.make_empty_flows(processes=procs, flow_definitions=fdefs, dims=dims)
+    sdefs = [flodym.StockDefinition(name="in use", process="use", dim_letters=("t", "r"), subclass=flodym.SimpleFlowDrivenStock, time_letter="t")]
+    stocks = flodym.make_empty_stocks(stock_definitions=sdefs, processes=procs, dims=dims)
+    mfa = flodym.MFASystem(dims=dims, parameters={}, processes=procs, flows=flows, stocks=stocks)
+    rng = np.random.default_rng(n_time * 977 + n_reg)
+    arrays = {}
+    for n, f in mfa.flows.items():
+        f.values[...] = rng.integers(1, 10 ** 6, size=f.values.shape).astype(float) + 0.25
+        arrays[("flow", n, "")] = f
+    st = mfa.stocks["in use"]
+    for q in ("stock", "inflow", "outflow"):
+        a = getattr(st, q)
+        a.values[...] = rng.integers(1, 10 ** 6, size=a.values.shape).astype(float) + 0.75
+        arrays[("stock", "in use", q)] = a
+    tag = f"[large instance: {n_time} years x {n_reg} regions] {{C19}} "
+    problems = []
+    tmp = tempfile.mkdtemp(prefix="flodym-verif-bigexp-")
+    try:
+        d = data_writer.convert_to_dict(mfa, type="pandas")
+        for n, f in mfa.flows.items():
+            back = FlodymArray.from_df(dims=f.dims, df=d["flows"][n]).values
+            if not np.array_equal(back, f.values):
+                problems.append(tag + f"pandas form of flow {n!r} read back with from_df differs in {int(np.sum(back != f.values))} of {f.values.size} entries")
+        back = FlodymArray.from_df(dims=st.stock.dims, df=d["stocks"]["in use"]).values
+        if not np.array_equal(back, st.stock.values):
+            problems.append(tag + "pandas form of the stock read back with from_df differs")
+        data_writer.export_mfa_flows_to_csv(mfa, tmp)
+        data_writer.export_mfa_stocks_to_csv(mfa, tmp, with_in_and_out=True)
+        for (kind, n, q), a in arrays.items():
+            fn = to_valid_file_name(n) + (".csv" if kind == "flow" else f"_{q}.csv")
+            back = FlodymArray.from_df(dims=a.dims, df=pd.read_csv(os.path.join(tmp, fn))).values
+            if not np.array_equal(back, a.values):
+                problems.append(tag + f"CSV file of {kind} {n!r} {q} read back with from_df differs in {int(np.sum(back != a.values))} of {a.values.size} entries")
+    except Exception as ex:
+        problems.append(tag + f"export / read back raised {type(ex).__name__}: {str(ex)[:160]}")
+    finally:
+        shutil.rmtree(tmp, ignore_errors=True)
+    return problems[:3]
 
 
 def run_vector(vec):
